@@ -1318,6 +1318,9 @@ class Interp:
         # 1. rustc resolved it to a local body
         if res and res["local"] and res["def"] in self.f.bodies and res["ik"] == "item":
             body = self.f.bodies[res["def"]]
+            if body.get("auto_derived") and body.get("name") == "default" and body.get("impl_trait") == "std::default::Default":
+                # #[derive(Default)]: the expanded body builds the value from its fields' defaults; it is analysed like written code
+                return self.call_local_inline(frame, bb, st, body, self.env_for(body, res["args"], env), args)
             if body.get("auto_derived"):
                 return self.call_derived(frame, bb, st, body, callee, args, dest_ty)
             cenv = self.env_for(body, res["args"], env)
